@@ -185,7 +185,7 @@ class NameGen:
 WEIGHTS = {
     'add_fp': 30, 'add_dir': 14, 'rm_file': 6, 'rm_dir': 4, 'add_link': 8, 'rm_link': 5,
     'add_symlink': 5, 'hide': 3, 'add_eltorito': 3, 'rm_eltorito': 1, 'add_isohybrid': 1,
-    'rm_isohybrid': 1, 'dup_pvd': 0.3, 'restart': 4, 'mass_dirs': 1, 'mass_files': 1, 'add_boot_file': 0, 're_add': 0, 'chain_dirs': 0,
+    'rm_isohybrid': 1, 'dup_pvd': 0.3, 'restart': 4, 'mass_dirs': 1, 'mass_files': 1, 'add_boot_file': 0, 're_add': 0, 'chain_dirs': 0.8,
 }
 
 
@@ -554,7 +554,7 @@ class OpGen:
         nss = ['iso'] + (['joliet'] if m.has('joliet') else []) + (['rr'] if m.rr else [])
         ns = r.choice(nss)
         src = 'iso' if ns == 'rr' else ns
-        cands = [(p, n) for p, n in m.iter_ns(src)]
+        cands = [(p, n) for p, n in m.iter_ns(src) if not n.reloc]      # which record of a relocated directory carries the flag is not specified
         if not cands:
             return None
         p, n = r.choice(cands)
